@@ -166,6 +166,25 @@ def run(tier):
             if np.max(np.abs(lhs - rhs)) > 1e-9 * max(1.0, np.max(np.abs(lhs))):
                 chk.violation("linearity", "integrate() is not linear in the signal",
                               {"N": N, "a": a, "b": b, "maxdiff": float(np.max(np.abs(lhs - rhs)))})
+            # ... also when one of the signals is exactly zero around the irregular step (zero padding, a late burst, an impulse)
+            if N > 8:
+                k = rng.randrange(2, N - 3)
+                tk = t.copy()
+                kind = rng.choice(["lost", "displaced", "rate"])
+                if kind == "lost":
+                    tk[k:] += dt
+                elif kind == "displaced":
+                    tk[k] += 0.05 * dt
+                else:
+                    tk[k:] = tk[k - 1] + 2.0 * dt * np.arange(1, N - k + 1)
+                for xz in (np.where(np.arange(N) > k + 4, x, 0.0), np.where(np.arange(N) < k - 4, x, 0.0), np.where(np.arange(N) == min(N - 1, k + 6), 1.0, 0.0)):
+                    lhs = integrate(tk, a * xz + b * y, 4, 1, 0.0)
+                    rhs = a * integrate(tk, xz, 4, 1, 0.0) + b * integrate(tk, y, 4, 1, 0.0)
+                    evals += 3
+                    if np.max(np.abs(lhs - rhs)) > 1e-9 * max(1.0, np.max(np.abs(lhs))):
+                        chk.violation("linearity:zeros", "integrate() is not linear in the signal (one signal is exactly zero around an irregular time step)",
+                                      {"N": N, "a": a, "b": b, "irregularity": kind, "at": int(k), "maxdiff": float(np.max(np.abs(lhs - rhs)))})
+                        break
 
         # 5. code -> spec: random grids, all (order, n), validated by IntegrateTrace ------------------------
         path = os.path.join(work, "c20.ndjson")
@@ -178,9 +197,14 @@ def run(tier):
                 N = rng.choice([2, 3, 4, 6, 10, 25, 60, 300] + ([2000] if not quick else []))
                 base = rng.choice([400, 1000, 2500])
                 d = []
-                for _ in range(N - 1):
+                # some records start slowly (a gap first, or a sampling rate that goes up later): lead-in steps of 2 .. 10 x base
+                lead = rng.choice([0, 0, 0, 1, 1, 3]) if N > 6 else 0
+                mult = rng.choice([2, 3, 10])
+                for i_ in range(N - 1):
                     x = rng.random()
-                    if x < 0.82:
+                    if i_ < lead:
+                        d.append(base * mult)
+                    elif x < 0.82:
                         d.append(base)
                     elif x < 0.90:
                         d.append(base + base // 200)       # 0.5 % jitter
